@@ -16,7 +16,11 @@ from harness.props import c05, c06
 
 RULE = ("cases: random rooted trees 2..6 nodes (chains/stars/spiders/uniform), random states incl. redundant bonds, "
         "Hermitian TTNOs, 2 consecutive steps, truncation grid (max_bond_dim in {1,2,3,inf} x rel_tol x total_tol x "
-        "sum mode x renorm) plus truncation disabled; two-node cases with initial bond 1..4. "
+        "sum mode x renorm) plus truncation disabled; two-node cases with initial bond 1..4; plus the input-space audit "
+        "families shared with C05/C06 (non-diagonal TTNOs, pre-gauged caller states, default configuration and default "
+        "truncation argument, builder function, Chebyshev / sparse modes, real / integer / single-precision tensors, "
+        "magnitudes 1e-8..1e8 with tolerances relative to the data, physical dimension 1, prefix identifiers, read-only "
+        "tensors, reset / setter histories). "
         "non-trivial = distinct (shape, settings, seed) with >= 3 nodes, or a two-node exactness case")
 PARTIAL = ["conservation is decided per run by the dense oracle; proved are the schedule facts (twoSite_defined_iff, "
            "twoSite_final_centre, two_node_trace, two_node_exact, Ptn.C05.twoSite_edge_total / twoSite_site_total / "
@@ -61,6 +65,28 @@ def gen_cases(ctx):
     for _ in range(ctx.n(30, 120)):
         cases.append({"kind": "twonode", "seed": rng.randrange(10 ** 9), "bond": rng.choice([1, 2, 3, 4]),
                       "d": rng.choice([(2, 2), (2, 3), (3, 2)]), "rootfirst": rng.random() < 0.5})
+    # input-space audit (notes/C07.md): the families of C05 with the C07 oracle (Hermitian Hamiltonians) ...
+    arng = ctx.subrng("audit7")
+    for c in c05.audit_cases(ctx, ("tdvp2site",)):
+        if c["fam"] == "one-node":
+            continue                    # the property speaks about trees with at least two nodes
+        c.update(kind="trunc" if c.get("svd") else "notrunc", herm=True)
+        cases.append(c)
+    for _ in range(ctx.n(6, 30)):       # the documented default of the optional truncation argument
+        n = arng.choice([2, 3, 4, 5])
+        cases.append({"kind": "notrunc", "par": gen.random_parent_array(arng, n), "seed": arng.randrange(10 ** 9),
+                      "steps": 2, "svd": "default", "fam": "default-truncation", "herm": True,
+                      "cfg": arng.choice([None, "none"])})
+    # ... and the two-node exactness clause in the same regimes
+    for extra in [{"sscale": 1e-8}, {"sscale": 1e8}, {"hscale": 1e-6}, {"hscale": 1e3}, {"dtype": "real"},
+                  {"dtype": "int"}, {"cfg": "none"}, {"cfg": "builder"}, {"cfg": "chebyshev"}, {"cfg": "sparse"},
+                  {"steps": 3}, {"steps": 2, "reset_after": 1}, {"names": "prefix"}, {"pregauge": "KEEP"},
+                  {"pregauge": "REDUCED"}, {"readonly": True}, {"ttno": "generic"}, {"retime": 2}, {"retime": 3},
+                  {"svd": "default"}]:
+        for _ in range(ctx.n(2, 6)):
+            cases.append(dict({"kind": "twonode", "seed": arng.randrange(10 ** 9), "bond": arng.choice([1, 2, 3, 4]),
+                               "d": arng.choice([(2, 2), (2, 3), (3, 2)]), "rootfirst": arng.random() < 0.5,
+                               "fam": "twonode-audit"}, **extra))
     return cases
 
 
@@ -118,22 +144,28 @@ def run_impl(ctx, case):
     if case["kind"] == "twonode":
         _twonode(ctx, case)
         return None
-    c6case = {"par": case["par"], "seed": case["seed"], "fullrank": False, "bonds": case.get("bonds"), "rich": case.get("rich")}
-    rng, nprng, ttns, info, H, Hm, Hneg = c06._problem(c6case)
+    rng, nprng, ttns, info, H, Hm, Hneg = c06._problem(dict(case, fullrank=False))
     n = len(case["par"])
     names = info["names"]
     inv = {v: k for k, v in names.items()}
     order = sorted(ttns.nodes)
     svd = case.get("svd")
+    if svd == "default":
+        svd = dict(max_bond_dim=100)        # SVDParameters(): bonds <= 100, tolerances 1e-15 (nothing of weight is cut)
     ctx.tally("kind", case["kind"])
     ctx.tally("nodes", n)
+    ctx.tally("audit_family", case.get("fam", "-"))
     ctx.sample(case, 3)
-    dt = 0.02
+    dt = 0.02 / (case.get("hscale") or 1.0)       # |H| dt stays O(1): magnitude of H and step size are varied together
+    tf = info.get("tolf", 1.0)              # element-type factor of all tolerances (single precision: 5e3)
     struct0 = dense.structure(ttns)
     try:
-        algo = algos.make_algo("tdvp2site", ttns, H, dt, dt, [], svd=dict(svd) if svd else None)
+        algo = c05.make_algo(case, "tdvp2site", ttns, H, dt, dt)
     except Exception as e:              # noqa: BLE001
         ctx.oracle_fail(case, f"two-site: construction raised {type(e).__name__}: {str(e)[:200]}")
+        return None
+    if algo is None:
+        ctx.tally("pending_finding_skipped", case.get("cfg"))
         return None
     up = list(algo.update_path)
     segs = [(up[i], dense.path_between(ttns, up[i], up[i + 1])[1]) for i in range(len(up) - 1)]
@@ -142,11 +174,19 @@ def run_impl(ctx, case):
     probs = []
     for step in range(case["steps"]):
         try:
+            if case.get("reset_after") == step:
+                algo.reset_to_initial_state()
+                v_prev = dense.ttns_vector(algo.state, order)
+                e_prev = algos.expval_dense(v_prev, Hm)
+            if case.get("retime_after") == step:
+                algo.set_num_time_steps_constant_final_time(case["retime_n"])
+            if case.get("setn_after") == step:
+                algo.set_num_time_steps(case["setn"])
             algo.run_one_time_step()
         except Exception as e:          # noqa: BLE001
             ctx.oracle_fail(case, f"two-site: step {step} did not complete: {type(e).__name__}: {str(e)[:200]}")
             return None
-        ctx.count(("2s", case["kind"], tuple(case["par"]), case["seed"], step), nontrivial=n >= 3)
+        ctx.count(("2s", case["kind"], tuple(case["par"]), case["seed"], step, case.get("fam")), nontrivial=n >= 3)
         st = algo.state
         if dense.structure(st) != struct0:
             probs.append(f"step {step}: identifiers / parent-child relations changed")
@@ -159,7 +199,7 @@ def run_impl(ctx, case):
         if centre is None or centre not in st.nodes:
             probs.append(f"step {step}: no valid recorded centre ({centre})")
         else:
-            probs += [f"step {step}: " + p for p in c06.canonical_problems(st, centre)]
+            probs += [f"step {step}: " + p for p in c06.canonical_problems(st, centre, 1e-8 * tf)]
         bd = st.bond_dims()
         if svd:
             D = svd["max_bond_dim"]
@@ -171,11 +211,13 @@ def run_impl(ctx, case):
         if case["kind"] == "notrunc":
             v = dense.ttns_vector(st, order)
             nrm0 = np.linalg.norm(v_prev)
-            if abs(np.linalg.norm(v) - nrm0) > 1e-8 * max(1.0, nrm0):
-                probs.append(f"step {step}: norm drift {abs(np.linalg.norm(v) - nrm0):.2e}")
+            # tolerances relative to the data: |psi| for the norm, |H| |psi|^2 for the energy
+            if abs(np.linalg.norm(v) - nrm0) > 1e-8 * tf * nrm0:
+                probs.append(f"step {step}: norm drift {abs(np.linalg.norm(v) - nrm0):.2e} (norm {nrm0:.3g})")
             e = algos.expval_dense(v, Hm)
-            if abs(e - e_prev) > 1e-8 * max(1.0, abs(e_prev), np.linalg.norm(Hm) * nrm0 ** 2):
-                probs.append(f"step {step}: energy drift {abs(e - e_prev):.2e}")
+            if abs(e - e_prev) > 1e-8 * tf * np.linalg.norm(Hm) * nrm0 ** 2:
+                probs.append(f"step {step}: energy drift {abs(e - e_prev):.2e} (|H| |psi|^2 = "
+                             f"{np.linalg.norm(Hm) * nrm0 ** 2:.3g})")
             v_prev, e_prev = v, e
     if probs:
         ctx.oracle_fail(case, "two-site: " + "; ".join(probs[:4]))
@@ -185,39 +227,73 @@ def run_impl(ctx, case):
 
 
 def _twonode(ctx, case):
+    """Two-node tree, any initial bond, truncation disabled (or the default truncation argument): `steps` steps =
+    exp(-iH steps*dt) psi.  Audit keys: sscale, hscale, dtype, cfg, steps, reset_after, names, pregauge, readonly, ttno,
+    retime, svd='default'."""
     from pytreenet.ttns.ttns import TreeTensorNetworkState
     rng = random.Random(case["seed"])
     nprng = np.random.default_rng(case["seed"])
     d0, d1 = case["d"]
     par = [-1, 0]
     names = {0: "a", 1: "b"} if case["rootfirst"] else {0: "b", 1: "a"}
+    if case.get("names"):
+        nm = c05.NAME_SETS[case["names"]]
+        names = {0: nm[0], 1: nm[1]} if case["rootfirst"] else {0: nm[1], 1: nm[0]}
+    real = case.get("dtype") in ("real", "int", "single")
+    realH = case.get("dtype") in ("int", "single")      # dtype "real": real state, complex Hamiltonian
     ttns, *_ = gen.build_network(TreeTensorNetworkState, par, {(0, 1): case["bond"]}, {0: [d0], 1: [d1]},
-                                 rng, nprng, names=names)
+                                 rng, nprng, names=names, complex_=not real)
     phys = {0: d0, 1: d1}
+    hs = case.get("hscale") or 1.0
     terms = [{0: gen.rand_hermitian(nprng, d0), 1: gen.rand_hermitian(nprng, d1)},
              {rng.randrange(2): gen.rand_hermitian(nprng, phys[0] if False else (d0 if True else d1))}]
     # second term on site 0 only (keeps dims consistent)
     terms[1] = {0: gen.rand_hermitian(nprng, d0)}
-    H, Hm = algos.ttno_from_terms(par, phys, names, terms, rng, nprng)
+    if case.get("ttno") == "generic":
+        H, Hm = c05.generic_ttno(rng, nprng, par, phys, names, True, real=realH, scale=hs)
+    else:
+        if realH or hs != 1.0:
+            terms = [{k: (np.real(o) if realH else o) * (hs if k == 0 else 1.0) for k, o in t.items()} for t in terms]
+        H, Hm = algos.ttno_from_terms(par, phys, names, terms, rng, nprng)
+        if realH:
+            for nid in list(H.nodes):
+                H.replace_tensor(nid, np.real(H.tensors[nid]))
+    tf = 1.0
+    if any(case.get(k) for k in ("dtype", "sscale", "readonly", "pregauge")):
+        Hm, tf = c05.specialise(dict(case, gauge_at=case.get("gauge_at") or "random"), rng, ttns, H, Hm)
     order = sorted(ttns.nodes)
-    v0 = dense.ttns_vector(ttns, order)
-    dt = 0.1
-    ctx.count(("twonode", case["seed"], case["bond"]), nontrivial=True)
+    v0 = dense.ttns_vector(ttns, order).astype(complex)
+    dt = 0.1 / hs                           # |H| dt stays O(1): magnitude of H and step size are varied together
+    steps = case.get("steps", 1)
+    ctx.count(("twonode", case["seed"], case["bond"], case.get("fam")), nontrivial=True)
     ctx.tally("kind", "twonode")
     ctx.tally("twonode_bond", case["bond"])
+    if case.get("fam"):
+        ctx.tally("twonode_audit", next(f"{k}={case[k]}" for k in ("sscale", "hscale", "dtype", "cfg", "steps", "names",
+                                                                 "pregauge", "readonly", "ttno", "retime", "svd")
+                                        if case.get(k)))
     try:
-        algo = algos.make_algo("tdvp2site", ttns, H, dt, dt, [], svd=dict(NO_TRUNC))
-        algo.run_one_time_step()
+        algo = c05.make_algo(dict(case, svd=case.get("svd") or dict(NO_TRUNC)), "tdvp2site", ttns, H, dt, dt)
+        if case.get("retime"):
+            algo.set_num_time_steps_constant_final_time(case["retime"])
+            dt = algo.time_step_size
+        done = 0
+        for step in range(steps):
+            if case.get("reset_after") == step:
+                algo.reset_to_initial_state()
+                done = 0
+            algo.run_one_time_step()
+            done += 1
         v1 = dense.ttns_vector(algo.state, order)
     except Exception as e:              # noqa: BLE001
         ctx.oracle_fail(case, f"two-site two-node: raised {type(e).__name__}: {str(e)[:200]}")
         return
     w, U = np.linalg.eigh(Hm)
-    ref = (U * np.exp(-1j * w * dt)) @ (U.conj().T @ v0)
-    err = np.linalg.norm(v1 - ref) / max(1.0, np.linalg.norm(ref))
-    if err > 1e-9:
-        ctx.oracle_fail(case, f"two-site two-node step differs from exp(-iH dt) psi (rel. err {err:.2e}, "
-                              f"initial bond {case['bond']})")
+    ref = (U * np.exp(-1j * w * dt * done)) @ (U.conj().T @ v0)
+    err = np.linalg.norm(v1 - ref) / np.linalg.norm(ref)
+    if err > 1e-9 * tf:
+        ctx.oracle_fail(case, f"two-site two-node: {done} step(s) differ from exp(-iH t) psi (rel. err {err:.2e}, "
+                              f"initial bond {case['bond']}, |psi| = {np.linalg.norm(ref):.3g})")
 
 
 def shrink(case):
